@@ -63,6 +63,12 @@ func (s *Segment) WriteTo(w io.Writer, _ chan struct{}) (int64, error) {
 	if err != nil {
 		return n, fmt.Errorf("error persisting segment: %w", err)
 	}
+	if n != int64(s.data.Len()) {
+		// the copy ended early without an error: storage that reports
+		// end-of-file before the data section is complete (a file truncated
+		// behind the segment's back) ends the copy like a clean end of data
+		return n, fmt.Errorf("error persisting segment: %w", io.ErrUnexpectedEOF)
+	}
 
 	footerOut := *s.footer
 	footerOut.crc = cw.Sum32()
